@@ -1,2 +1,106 @@
-(** C10 (statements only; proofs in Proofs/Dhcp4.v).  Work in progress. *)
-From AGH Require Import Model.Dhcp4.
+(** C10: DHCPv4 never leases one address to two clients; the lease table
+    survives a restart.  Only statements here; proofs live in Proofs/Dhcp4.v.
+
+    [run c h empty_state] is the state after any history [h] (a list of
+    (clock reading, operation): DISCOVER, REQUEST, DECLINE, RELEASE, static
+    add / update / remove, time passing, restart) from the empty table. *)
+From Coq Require Import List ZArith NArith Permutation.
+From AGH Require Import Base.Run Model.Dhcp4 Proofs.Dhcp4.
+Import ListNotations.
+Local Open Scope N_scope.
+
+(** The invariant, in every reachable state: addresses pairwise distinct;
+    clients pairwise distinct; every dynamic address inside the pool, not the
+    gateway, not a static lease's address; static addresses inside the subnet
+    and not the gateway; the address index, the leased-offset set and the
+    hostname index describe the list exactly; the file lists no address and
+    no client twice. *)
+Theorem C10_inv_reachable : forall c h, valid_conf c ->
+  let s := run c h empty_state in
+  NoDup (map l_ip (leases s)) /\ NoDup (map l_mac (leases s)) /\
+  (forall l, In l (leases s) -> l_static l = false ->
+     in_pool c (l_ip l) = true /\ l_ip l <> c_gw c /\
+     forall r, In r (leases s) -> l_static r = true -> l_ip r <> l_ip l) /\
+  (forall l, In l (leases s) -> l_static l = true ->
+     in_subnet c (l_ip l) = true /\ l_ip l <> c_gw c) /\
+  (forall ip, iidx (ix s) ip = true <-> In ip (map l_ip (leases s))) /\
+  (forall o, offs (ix s) o = true <->
+     In (c_start c + o) (map l_ip (leases s)) /\ c_start c + o <= c_end c) /\
+  (forall h ip, hidx (ix s) h = Some ip <->
+     h <> [] /\ exists l, In l (leases s) /\ l_ip l = ip /\ l_host l = h) /\
+  NoDup (map l_ip (disk s)) /\ NoDup (map l_mac (disk s)).
+Proof. exact inv_reachable_expanded. Qed.
+Print Assumptions C10_inv_reachable.
+
+(** Among the leases reported as active at any instant (static, or dynamic
+    and not expired): one holder per address and one lease per client. *)
+Theorem C10_one_holder : forall c h now,
+  let s := run c h empty_state in
+  forall l1 l2, In l1 (active now s) -> In l2 (active now s) ->
+  (l_ip l1 = l_ip l2 \/ l_mac l1 = l_mac l2) -> l1 = l2.
+Proof. exact one_holder_reachable. Qed.
+Print Assumptions C10_one_holder.
+
+(** Any reply carrying an address to a client that has a static lease
+    carries the reserved address. *)
+Theorem C10_reservation_respected : forall c h now o s' mt yi mac r,
+  let s := run c h empty_state in
+  step c s now o = (s', ROk mt yi) -> yi <> 0 -> op_mac o = Some mac ->
+  In r (leases s') -> l_static r = true -> l_mac r = mac -> yi = l_ip r.
+Proof. exact reservation_reachable. Qed.
+Print Assumptions C10_reservation_respected.
+
+(** DISCOVER from a client without a lease, while some pool address is in no
+    lease: OFFER (message type 2) of a pool address that was in no lease,
+    now reserved for that client. *)
+Theorem C10_offer_liveness : forall c h now mac ip,
+  let s := run c h empty_state in
+  ~ In mac (map l_mac (leases s)) -> in_pool c ip = true -> ~ In ip (map l_ip (leases s)) ->
+  exists ip' s', step c s now (ODiscover mac) = (s', ROk 2 ip') /\
+    in_pool c ip' = true /\ ~ In ip' (map l_ip (leases s)) /\
+    exists l, In l (leases s') /\ l_ip l = ip' /\ l_mac l = mac.
+Proof. exact liveness_reachable. Qed.
+Print Assumptions C10_offer_liveness.
+
+(** The file written by a store lists exactly the leases in memory, each
+    once (expiry at whole seconds, none for static leases). *)
+Theorem C10_store_exact : forall s, Permutation (disk (store s)) (map db_lease (leases s)).
+Proof. exact store_exact. Qed.
+Print Assumptions C10_store_exact.
+
+(** Persistence, full statement: after a store and a restart the table holds
+    the same leases and HostByIP / IPByHost answer the same. *)
+Definition C10_persistence_statement : Prop := persistence_statement.
+
+(** Proved part: the same under the side condition that the names of the
+    dynamic leases are fixed points of the re-validation done on reload.
+    Missing for the full statement: that this side condition holds in every
+    reachable state (needs idempotence of [normalize] on its own output and
+    validity of [gen_hostname]); the harness checks the round trip on every
+    generated history. *)
+Theorem C10_persistence_partial : forall c h,
+  let s := run c h empty_state in
+  NamesStable (leases s) ->
+  let s' := restart c (store s) in
+  Permutation (leases s') (map db_lease (leases s)) /\
+  (forall h, ip_by_host s' h = ip_by_host s h) /\
+  (forall ip, host_by_ip s' ip = host_by_ip s ip).
+Proof. exact persistence_partial. Qed.
+Print Assumptions C10_persistence_partial.
+
+(** Non-vacuity: a valid configuration and a history that reaches a table
+    with a static lease, two dynamic leases with names, a free pool address
+    and a client without a lease; the premises of the theorems above hold
+    there. *)
+Example C10_premises_satisfiable :
+  valid_conf example_conf /\
+  let s := run example_conf example_history empty_state in
+  length (leases s) = 3%nat /\
+  NamesStable (leases s) /\
+  (exists l, In l (leases s) /\ l_static l = true) /\
+  (exists l, In l (active example_now s) /\ l_static l = false) /\
+  ~ In 9 (map l_mac (leases s)) /\
+  (exists ip, in_pool example_conf ip = true /\ ~ In ip (map l_ip (leases s))) /\
+  (exists s' mt yi r, step example_conf s example_now (ODiscover 2) = (s', ROk mt yi) /\ yi <> 0 /\
+     In r (leases s') /\ l_static r = true /\ l_mac r = 2).
+Proof. exact premises_satisfiable. Qed.
